@@ -331,7 +331,21 @@ void property(const pbt::Tape& t, pbt::Ctx& ctx) {
         Obs a = observe(ya, sA, true); bool ok; Real tolK = dynTol(a.M, ctx, ok); if (!ok) { ctx.reject("ill-conditioned-M"); return; }
         Obs b = observe(yb, sB, false);
         std::vector<bool> skipR = loneParticleSites(ctx, spec, spec2);
-        compareObs(ctx, "reversed mobilizer in the same physical state", a, b, Transform(), tolK * 10, fscale, true, false, true, &mask, &skipR);
+        if (!compareObs(ctx, "reversed mobilizer in the same physical state", a, b, Transform(), tolK * 10, fscale, true, false, true, &mask, &skipR)) return;
+        // The udot of the re-parameterised joint has no counterpart to compare with, and an error of its bias term inside range(H) is
+        // absorbed by udot without changing the reported A_GB. "Same body motion" therefore also demands that the reversed model's
+        // (qdot, udot) really produce those accelerations: d/dt of its reported body velocities along its own motion (5-point FD)
+        // must equal the forward model's accelerations.
+        {
+            // step: 1e-3, reduced for violent accelerations (light bodies under O(1) forces): the stencil's truncation error grows like
+            // |udot|^3 h^4, with h ~ 0.02/sqrt|udot| it stays ~1e-8 relative
+            const Real hfd = std::min(1e-3, 0.02 / std::sqrt(1 + refdyn::maxAbs(sB.getUDot())));
+            std::vector<SpatialVec> Afd = refdyn::referenceAccelerations(yb.m.sys, yb.m.matter, sB, sB.getUDot(), hfd);
+            Real ascale = 1; for (auto& x : a.A) ascale = std::max(ascale, nrm(x)); Real us = 1 + refdyn::maxAbs(sB.getU());
+            for (int i = 1; i <= nb; ++i) { Real d = refdyn::dot(Afd[i] - a.A[i], Afd[i] - a.A[i]); d = std::sqrt(d);
+                track()("reversed: FD acceleration along own udot", d / (1e-5 * ascale * us * us));
+                if (!(d <= 1e-5 * ascale * us * us)) { ctx.fail("reversed mobilizer: body " + std::to_string(i) + " d/dt of velocity along the reversed model's own qdot/udot differs from the forward model's acceleration by " + S(d)); return; } }
+        }
         return;
     }
     {                  // ------------------------------------------------------------------ (d) rigid relocation of the whole model
@@ -354,6 +368,12 @@ pbt::Config config() {
     pbt::Config c; c.prop = "C06"; c.K = K6; c.minUnits = 1;
     c.quick = {3000, 10000, 30, 25}; c.thorough = {15000, 40000, 30, 240};
     c.rule = "rapidcheck tape -> mbgen tree of 1..5 bodies (18 mobilizer types, forward/reversed, frame kinds, quaternion or Euler, non-singular q, u in [-2,2]), gravity in [-10,10]^3, tape-seeded body and mobility forces; mode in {convert, mirror, reverse, relocate}. Non-trivial: convert: a quaternion-capable mobilizer and (>=2 bodies or >=3 dofs); mirror: a mirrored mobilizer with >=2 dofs or not on Ground; reverse: the reversed mobilizer has >=2 dofs or is not a base body; relocate: >=2 bodies and the first is not welded.";
+    c.assumptions = {"reverse: only mobilizer types whose set of relative motions is closed under inversion are reversed (Pin, Slider, Cylinder, Screw with pitch != 0, Planar, Ball, Free, Translation, Gimbal, Bushing); setQToFitTransform/setUToFitVelocity of these types are trusted (C05)",
+                     "tolerances: poses/velocities/KE 1e-10 relative, M 1e-11, accelerations/reactions/udot 1e5*eps*nu*kappa(M) (observed <= 1e-3 of that), FD acceleration clause 1e-5 (observed <= 0.23e-6/1e-6 i.e. 40x margin); kappa(M) >= 1e9 rejected",
+                     "mirror: FunctionBased built from identity/constant Functions; Custom Ball only in quaternion models"};
+    c.requiredLabels = {"mode:convert", "mode:mirror", "mode:reverse", "mode:relocate", "convert:quat->euler", "convert:euler->quat", "mob:Ellipsoid/rev/quat", "mob:FreeLine/fwd/euler", "mob:LineOrientation/rev/quat",
+                        "mirror:FunctionBased:Universal/rev", "mirror:FunctionBased:Bushing/fwd", "mirror:FunctionBased:Planar/rev", "mirror:FunctionBased:Gimbal/fwd", "mirror:FunctionBased:Cylinder/rev", "mirror:Custom:Ball/fwd", "mirror:Custom:Ball/rev", "mirror:Custom:Pin/rev", "mirror:Custom:Slider/fwd",
+                        "reverse:Free/fwd->rev/quat", "reverse:Free/rev->fwd/euler", "reverse:Planar/fwd->rev", "reverse:Bushing/rev->fwd", "reverse:Gimbal/fwd->rev", "reverse:Screw/fwd->rev", "reverse:Ball/rev->fwd/quat", "loneparticle-vs-general-node", "nbodies:4-6"};
     c.directed.push_back({"loneparticle-reaction", "loneparticle-reaction-ignores-com", [](pbt::Ctx& ctx) {
         // the same physical model twice: identity frames (RBNodeLoneParticle) and inboard frame shifted by 1e-300 (general node)
         SpatialVec R[2];
